@@ -12,6 +12,7 @@
 package main
 
 import (
+	"crypto/elliptic"
 	"fmt"
 	"math/big"
 	"os"
@@ -67,10 +68,38 @@ func newWorld() *world {
 	}
 	for _, g := range w.glist {
 		if _, ok := w.refs[g.model]; !ok {
-			w.refs[g.model] = deriveRef(g)
+			w.refs[g.model] = stdRef(g)
 		}
 	}
 	return w
+}
+
+// stdRef: the reference curve with the textbook constants (SEC 2, FIPS 186 via crypto/elliptic,
+// the pasta / BLS12-381 / RFC 7748 / RFC 8032 definitions), written here independently of both the
+// Coq model's CurveParams.v and the implementation; the field order is the one the API reports.
+func stdRef(g *group) refCurve {
+	f := refField{p: g.p, ext: g.comps == 2}
+	c := refCurve{kind: g.kind, f: f}
+	switch g.model {
+	case "k256":
+		c.a, c.b = f.small(0), f.small(7)
+	case "p256":
+		c.a, c.b = f.small(-3), fe{new(big.Int).Set(elliptic.P256().Params().B), nil}
+	case "pallas", "vesta":
+		c.a, c.b = f.small(0), f.small(5)
+	case "g1":
+		c.a, c.b = f.small(0), f.small(4)
+	case "g2":
+		c.a, c.b = f.zero(), fe{big.NewInt(4), big.NewInt(4)}
+	case "ed25519":
+		c.a = f.small(-1)
+		c.b = f.div(f.small(-121665), f.small(121666))
+	case "curve25519":
+		c.a, c.b = f.small(486662), f.zero()
+	default:
+		panic("no reference constants for " + g.model)
+	}
+	return c
 }
 
 // deriveRef recovers the curve constants from what the API reports: the field order and the
@@ -110,8 +139,13 @@ func deriveRef(g *group) refCurve {
 	return c
 }
 
-func (w *world) paramsText(g *group) string {
-	c := w.refs[g.model]
+func (w *world) paramsText(g *group) (out string) {
+	defer func() {
+		if r := recover(); r != nil {
+			out = fmt.Sprintf("underivable(%v)", r)
+		}
+	}()
+	c := deriveRef(g)
 	f := c.f
 	G, _ := c.parse(g.text(g.generator()))
 	parts := []string{hexZ(g.fieldOrd()), f.text(c.a)}
@@ -784,6 +818,32 @@ func whatOf(line string) string {
 	return "C14 correspondence"
 }
 
+// shrinkMSM greedily drops terms of a multi-scalar case while the implementation still disagrees
+// with the math/big reference.
+func (w *world) shrinkMSM(line string) string {
+	f := strings.Split(line, " ")
+	if len(f) < 4 || (f[0] != "MSM" && f[0] != "MSMN" && f[0] != "LMSM") {
+		return line
+	}
+	bad := func(l string) bool {
+		e := w.eval(l)
+		return e.skip == "" && e.ref != "" && e.ref != e.impl
+	}
+	terms := f[2:]
+	for changed := true; changed; {
+		changed = false
+		for i := 0; i < len(terms) && len(terms) > 1; i++ {
+			cand := append(append([]string{}, terms[:i]...), terms[i+1:]...)
+			if bad(f[0] + " " + f[1] + " " + strings.Join(cand, " ")) {
+				terms = cand
+				changed = true
+				i--
+			}
+		}
+	}
+	return f[0] + " " + f[1] + " " + strings.Join(terms, " ")
+}
+
 // runCases evaluates the cases, applies R and records mismatches.  Returns the number of mismatches.
 func runCases(w *world, a vh.Args, res *vh.Result, lines []string, tag string) int {
 	evs := make([]evalOut, len(lines))
@@ -843,9 +903,16 @@ func runCases(w *world, a vh.Args, res *vh.Result, lines []string, tag string) i
 			kind = "prop"
 			why = "implementation " + e.impl + ", expected " + e.ref
 		}
+		cs := lines[i]
+		if refBad {
+			if sh := w.shrinkMSM(cs); sh != cs {
+				why += "; shrunk from " + fmt.Sprint(len(strings.Split(cs, " "))-2) + " terms (the shrunk case is checked against the math/big reference)"
+				cs = sh
+			}
+		}
 		res.Mismatch(vh.Mismatch{
 			ID: fmt.Sprintf("%s-%d", tag, i), Kind: kind, Key: keyOf(lines[i]),
-			Detail: why + "; reference: " + e.ref, Case: lines[i], PropFail: refBad, What: whatOf(lines[i]),
+			Detail: why + "; reference: " + e.ref, Case: cs, PropFail: refBad, What: whatOf(lines[i]),
 		})
 	}
 	return bad
